@@ -149,20 +149,6 @@ End Histories.
 
 (* ---- the clauses the code does not satisfy ---- *)
 
-(* decodeNode panics on a short node whose compact key is the empty string
-   (compactToHex indexes base[0]): the node c2 80 76 *)
-Theorem decode_node_panics : exists buf, decode_node_top None buf 0 = Panic.
-Proof. exists [xc2; x80; x76]. vm_compute. reflexivity. Qed.
-
-(* hence VerifyProof panics on a one-node proof, whatever the hash function *)
-Theorem verify_proof_panics : forall H : bytes -> bytes,
-  exists root key nodes, verify_proof root key (proof_db_of H nodes) = Panic.
-Proof.
-  intros H. exists (H [xc2; x80; x76]), [], [[xc2; x80; x76]].
-  unfold verify_proof, proof_db_of. cbn [map length verify_loop db_get fst].
-  rewrite bytes_eqb_refl. reflexivity.
-Qed.
-
 (* Prove on the empty trie emits no node; VerifyProof then misses the root node:
    absence in the empty trie has no verifiable proof *)
 Theorem empty_trie_absence_not_provable : forall (H : bytes -> bytes) d k,
